@@ -23,7 +23,8 @@ RULE = ("definitions with >=3 symbols per role and >=2 sensors x >=2 readings, b
         "order of every list/dict and container type in {set,list,tuple,frozenset}; digests of header_from_ast / "
         "source_from_ast (EKF and Model generators), files written by cpp.compile_ekf, Model.arglist, "
         "State/Control/Calibration layouts, EKF arglists, sensor reading orders, process noise matrix must be "
-        "identical across the variants; a child first checks that its canonical fingerprint equals the parent's. "
+        "identical across the variants; every child regenerates in-process (same and fresh generator) and every "
+        "third child first generates a decoy definition of another shape; a child first checks that its canonical fingerprint equals the parent's. "
         "non-trivial = (definition, variant) whose hash seed or permutation differs from variant 0; distinct = "
         "(definition index, hash seed, permutation seed, containers)")
 ASSUMPTIONS = [
